@@ -40,16 +40,55 @@ Lemma model_on_close_once : forall c evs l1 cc r l2,
 Proof. intros c evs l1 cc r l2. apply (accepted_on_close_once_with_peer_code evs). apply model_satisfies_monitor. Qed.
 
 Lemma model_reported_once_down : forall c evs,
-  s_sc (fst (final c evs)) = true -> s_loop (fst (final c evs)) <> LBlocked ->
+  s_sc (fst (final c evs)) = true ->
+  s_loop (fst (final c evs)) <> LBlocked -> s_loop (fst (final c evs)) <> LOpening ->
   existsb is_onclose (items_of (run c evs)) = true.
 Proof.
-  intros c evs Hsc Hl.
+  intros c evs Hsc Hl Ho.
   destruct (reach c evs) as (a & R & (Hb & _ & _ & Hrd)).
   destruct (accepted_summary _ _ _ R) as (_ & _ & S3 & _).
   destruct (Jb_parts _ _ Hb) as (_ & _ & _ & _ & _ & _ & _ & P8 & _).
   rewrite <- S3, P8.
   destruct (s_loop (fst (final c evs))) eqn:E; cbn; auto; try congruence.
   rewrite (Hrd eq_refl) in Hsc. discriminate.
+Qed.
+
+(* the connection went down while a coroutine of the application was pending (open(), or an
+   asynchronous on_message): the notification is delivered as soon as that coroutine completes *)
+Lemma settle_down_finishes : forall r s q,
+  s_sc s = true -> s_loop s = LRead -> s_loop (fst (fst (settle r s q))) = LDone.
+Proof.
+  intros r s q Hsc Hl.
+  assert (F : forall s0, s_loop (fst (loop_finish r s0)) = LDone).
+  { intros s0. unfold loop_finish. destruct (notify r s0) as [s1 o]. destruct s1; reflexivity. }
+  destruct q as [|it q]; cbn [settle]; rewrite Hl, Hsc.
+  - destruct (s_ct s).
+    + specialize (F s). destruct (loop_finish r s); exact F.
+    + specialize (F (abort s)). destruct (loop_finish r (abort s)); exact F.
+  - destruct (s_ct s).
+    + specialize (F s). destruct (loop_finish r s); exact F.
+    + specialize (F (abort s)). destruct (loop_finish r (abort s)); exact F.
+Qed.
+
+Lemma model_reported_when_pending_callback_completes : forall c evs e,
+  s_sc (fst (final c evs)) = true ->
+  (s_loop (fst (final c evs)) = LOpening /\ e = EOpenDone)
+  \/ (s_loop (fst (final c evs)) = LBlocked /\ e = EMsgDone) ->
+  existsb is_onclose (items_of (run c (evs ++ [e]))) = true.
+Proof.
+  intros c evs e Hsc Hc.
+  assert (Hd : s_loop (fst (final c (evs ++ [e]))) = LDone).
+  { unfold final. rewrite final_from_snoc. fold (final c evs).
+    destruct (final c evs) as [s q]. cbn [fst] in *.
+    unfold step.
+    destruct Hc as [[Hl ->] | [Hl ->]]; cbn [act]; rewrite Hl;
+      (destruct (settle (c_role c) (set_loop LRead s) q) as [[s2 q2] o2] eqn:E; cbn [fst];
+       change s2 with (fst (fst (s2, q2, o2))); rewrite <- E;
+       apply settle_down_finishes; destruct s; cbn in *; auto). }
+  destruct (reach c (evs ++ [e])) as (a & R & (Hb & _)).
+  destruct (accepted_summary _ _ _ R) as (_ & _ & S3 & _).
+  destruct (Jb_parts _ _ Hb) as (_ & _ & _ & _ & _ & _ & _ & P8 & _).
+  rewrite <- S3, P8, Hd. reflexivity.
 Qed.
 
 (* ---- tearing the TCP connection down ---- *)
@@ -136,20 +175,27 @@ Qed.
 
 (* non-vacuity: concrete runs that meet the hypotheses above *)
 Example ex_crossing_closes :
-  items_of (run (mkcfg Server None)
+  items_of (run (mkcfg Server None false)
                 [ELocalClose (Some 1000%N) None; ERecv (FClose (CPCode 1001%N [98%N])); EWrite])
   = [ISent (SClose (Some 1000%N) []); IHandled (FClose (CPCode 1001%N [98%N]));
      IOnClose (Some 1001%N) (Some [98%N]); IWriteErr].
 Proof. reflexivity. Qed.
 
 Example ex_echo :
-  items_of (run (mkcfg Client None) [ERecv (FClose (CPBadUtf8 1002%N))])
+  items_of (run (mkcfg Client None false) [ERecv (FClose (CPBadUtf8 1002%N))])
   = [IHandled (FClose (CPBadUtf8 1002%N)); ISent (SClose (Some 1002%N) []);
      IOnClose (Some 1002%N) (Some bad_reason_decoded)].
 Proof. reflexivity. Qed.
 
+Example ex_torn_down_during_open :     (* close() inside a coroutine open(), closing timeout, open() returns *)
+  run (mkcfg Server None true) [ELocalClose (Some 1001%N) (Some [98%N]); ETick; EOpenDone]
+  = [([ISent (SClose (Some 1001%N) [98%N])], mksnap false false true true false TOpening);
+     ([], mksnap true true true false false TOpening);
+     ([IOnClose None None], mksnap true true true false false TEnded)].
+Proof. reflexivity. Qed.
+
 Example ex_ping_timeout_then_timer :
-  map snd (run (mkcfg Client (Some (3%N, Some 2%N))) [ETick; ETick; EWrite; ETick])
+  map snd (run (mkcfg Client (Some (3%N, Some 2%N)) false) [ETick; ETick; EWrite; ETick])
   = [mksnap false false false false true TRead; mksnap false false true true true TRead;
      mksnap false false true true true TRead; mksnap true true true false true TEnded].
 Proof. reflexivity. Qed.
